@@ -111,6 +111,8 @@ def Tr(v):
         return z3.BoolVal(len(v.items) > 0)
     if isinstance(v, PyMap):
         return v.nonempty if hasattr(v, "nonempty") else z3.BoolVal(True)
+    if isinstance(v, PyObj) and v.cls == "EPStack":
+        return v.fields["n"] > 0
     if isinstance(v, (PyObj, PyCallable, PyConst, PyGen)):
         return z3.BoolVal(True)
     raise Unsupported(f"truthiness of {type(v).__name__}")
